@@ -1,5 +1,5 @@
 import GnpyModel.Scalar
-import GnpyModel.Round
+import GnpyModel.RoundHE
 /-
 C13 — feasibility verdict and automatic mode selection.
 
